@@ -92,6 +92,8 @@ type rtCtr struct {
 	// fields last written by the kubelet through UpdateContainer (the cache
 	// does not record those, so they are not compared until the plugin sets them)
 	Dirty map[string]bool
+	// configuration in effect when the plugin last (re)allocated this container
+	AllocCfg *vhConfig
 }
 
 type rtPod struct {
@@ -106,6 +108,8 @@ type rtModel struct {
 	ctrs   map[string]*rtCtr
 	seq    int
 	memCap int64
+	// onTold is called for everything the plugin tells the runtime, before it is applied
+	onTold func(t toldUpdate, c *rtCtr)
 }
 
 func newRtModel() *rtModel {
@@ -277,6 +281,9 @@ func (m *rtModel) apply(u toldUpdate) {
 	if !ok || u.Res == nil {
 		return
 	}
+	if m.onTold != nil {
+		m.onTold(u, c)
+	}
 	if cpu := u.Res.GetCpu(); cpu != nil {
 		if cpu.GetCpus() != "" { // empty string = "no change" on the wire
 			c.Res.Cpus = cpu.GetCpus()
@@ -382,6 +389,14 @@ type executor struct {
 	// a request failed after the policy had changed other containers; those
 	// changes stay undelivered until the next successful reply that can carry updates
 	failedPending bool
+	// a policy event changed containers; no NRI reply has had a chance to carry the change yet
+	eventPending      bool
+	inRejectedReconfig bool
+	rejectedReconfigs int
+	// set by onTold-style observers that find a violation while a reply is collected
+	pendingViolation *vfkit.Violation
+	initial          map[string]string
+	scratch          map[string]any
 }
 
 func (e *executor) newID(prefix string) (string, int) {
@@ -475,6 +490,7 @@ func (e *executor) exec(op hcOp) *stepResult {
 			}
 			return r
 		}
+		c.AllocCfg = e.cfg
 		r.collect(m, id)
 
 	case "start":
@@ -516,6 +532,7 @@ func (e *executor) exec(op hcOp) *stepResult {
 		if r.Err == nil {
 			// the runtime applies the kubelet's values (unless the plugin overrides them in its reply)
 			c.Spec = spec
+			c.AllocCfg = e.cfg
 			c.ReqMilli, c.LimMilli = spec.MilliCPU, spec.LimitCPU
 			if pod.Spec.QoS == "besteffort" {
 				c.ReqMilli = 0
@@ -602,14 +619,21 @@ func (e *executor) exec(op hcOp) *stepResult {
 		for _, c := range m.ctrsIn(stCreateFailed) {
 			c.State = stRemoved
 		}
+		for _, c := range m.live() {
+			c.AllocCfg = e.cfg
+		}
 		r.collect(m, "")
 
 	case "reconfig":
 		r.Handler = "updateConfig"
 		r.CfgError = e.h.reconfigure(op.Cfg)
+		e.inRejectedReconfig = r.CfgError != nil
+		defer func() { e.inRejectedReconfig = false }()
 		r.Pushes = e.h.stub.takePushes()
 		if r.CfgError == nil {
 			e.cfg = op.Cfg
+		} else {
+			e.rejectedReconfigs++
 		}
 		r.collect(m, "")
 
@@ -633,7 +657,10 @@ func (e *executor) exec(op hcOp) *stepResult {
 			e.failedPending = true
 		} else if r.CfgError == nil {
 			e.failedPending = false
+			e.eventPending = false
 		}
+	case "ColdStartDone":
+		e.eventPending = true
 	}
 	e.steps++
 	return r
